@@ -190,7 +190,7 @@ theorem feedLoop_sound (L : c.Lawful) (cap : Nat) (last : Bool) (more : Bytes)
             false_and, if_false, Bool.or_false]
           by_cases he : r.out.isEmpty = true
           · have : r.out = [] := List.isEmpty_iff.mp he
-            simp [he, this, chunksText]
+            simp [this, chunksText]
           · simp [he, chunksText]
       · split
         · simp only [rangesOrdered]; omega
@@ -221,7 +221,7 @@ theorem feedLoop_sound (L : c.Lawful) (cap : Nat) (last : Bool) (more : Bytes)
              else []) = r.out := by
           by_cases he : r.out.isEmpty = true
           · have : r.out = [] := List.isEmpty_iff.mp he
-            cases last <;> simp [he, this, chunksText]
+            cases last <;> simp [this, chunksText]
           · simp [he, chunksText]
         refine ⟨?_, ?_, ?_, ?_⟩
         · rw [hsound, hrem, i1, chunksText_append, hemitText, List.append_assoc]
